@@ -178,6 +178,17 @@ class Env:
 
         gf = self.slide.shapes.add_table(r, c, Emu(0), Emu(0), Emu(w), Emu(h))
         self.n["add_table"] += 1
+        self.tables_made = getattr(self, "tables_made", 0) + 1
+        if self.tables_made % 5 == 3:
+            # the table as a hand-edited or generated deck may carry it: an XML comment in front of the cells of a row and of the
+            # rows of the table (comments are no elements: cell and row positions are what they were)
+            from lxml import etree
+
+            tbl = gf.table._tbl
+            for tr in tbl.tr_lst[:: 2]:
+                tr.insert(0, etree.Comment(" row "))
+            tbl.tr_lst[0].addprevious(etree.Comment(" rows "))
+            self.n["tables-with-xml-comments-among-rows-and-cells"] += 1
         return gf.table, self.sptree[-1]
 
     def wrap(self, frame_el):
